@@ -29,7 +29,10 @@ RULE = (
     "null elements, referenced-only structures, special floats, 8..64-bit limits) plus, added here, sofas that hold a "
     "URI or a byte array (with and without an id), a DocumentAnnotation instance, one id-less unindexed structure; and "
     "(after /repo d1bc860 and d94ad6a, from a random stream of its own) the byte array of a sofa is, in combinations, shared "
-    "with a second sofa, indexed in a view, referenced by a TOP- or ByteArray-ranged feature or by an element of an FSArray. "
+    "with a second sofa, indexed in a view, referenced by a TOP- or ByteArray-ranged feature or by an element of an FSArray; "
+    "and (third stream of its own) in about half of the multi-view cases the further views are not all created before the "
+    "first add: a view is created after some structures were added (its sofa takes the next free xmi:id, so xmi:id <> "
+    "sofaNum), or through create_view(name, xmiID=.., sofaNum=..) with identifiers of its own. "
     "Configurations: type_system_mode x (typesystem argument, merge_typesystem) in the 8 combinations the API can serve "
     "x pretty_print x ensure_ascii x sink in {string, str path, Path} are enumerated round-robin so that every "
     "combination occurs; every case additionally loads the document under all its applicable (typesystem, merge) "
@@ -67,7 +70,8 @@ ASSUMPTIONS = [
     "array structures hold a list in `elements` (None is written like [] and comes back as [])",
     "annotations carry the sofa of a view of the CAS and offsets inside its text; sofa texts have no lone surrogates",
     "the byte array of a sofa holds bytes (uima.cas.ByteArray); it may serve several sofas and be indexed / referenced as well",
-    "explicit ids of unindexed structures do not collide with ids the generator hands out later",
+    "explicit ids of unindexed structures do not collide with ids the generator hands out later (during the save, or to the "
+    "sofa of a view created after some adds); xmi:ids (sofas included) and sofaNums are distinct",
     "ids of structures without an explicit id are compared only where the traversal order cannot depend on id() (at most "
     "one such structure besides the sofa byte arrays)",
 ]
@@ -177,18 +181,59 @@ def _extend(r, cassis, tspec, cspec):
     return da_feats
 
 
+def id_plan(cspec):
+    """What the two id generators of the Cas (xmi:id, sofaNum) do while the CAS of the scenario is built, from the scenario
+    alone: the initial view takes 1 / 1 in the constructor; a further view is created after `after` of the adds of
+    cspec["members"] (default 0: before all of them; never later than its own first member or than the view after it) and
+    takes the next xmi:id unless the scenario names one (`sid`: create_view(name, xmiID=sid), reserved like an id kept by
+    add), likewise the next sofaNum unless `num` names one; add(keep_id) reserves (ba2e314).  Returns (xmi:ids of the
+    sofas, their sofaNums, the next xmi:id before the save)."""
+    views, members = cspec["views"], cspec["members"]
+    ids = {o["o"]: o["id"] for o in cspec["objs"]}
+    n = len(views)
+    sid, num = [None] * n, [None] * n
+    st = {"x": 1, "n": 1, "v": 0}
+
+    def create(pos, view=-1):
+        while st["v"] < n and (st["v"] == 0 or views[st["v"]].get("after", 0) <= pos or st["v"] <= view):
+            v = views[st["v"]] if st["v"] else {}
+            if v.get("sid") is None:
+                sid[st["v"]] = st["x"]
+                st["x"] += 1
+            else:
+                sid[st["v"]] = v["sid"]
+                st["x"] = max(st["x"], v["sid"] + 1)
+            if v.get("num") is None:
+                num[st["v"]] = st["n"]
+                st["n"] += 1
+            else:
+                num[st["v"]] = v["num"]
+                st["n"] = max(st["n"], v["num"] + 1)
+            st["v"] += 1
+
+    create(0)
+    for p, (vi, l) in enumerate(members):
+        create(p, vi)
+        if ids[l] is None:
+            ids[l] = st["x"]
+            st["x"] += 1
+        elif ids[l] >= st["x"]:
+            st["x"] = ids[l] + 1
+    create(len(members), n)
+    return sid, num, st["x"]
+
+
 def next_id(cspec):
-    """State of the xmi:id generator before the save, from the scenario: sofas take 1..n, add(keep_id) reserves (ba2e314)."""
-    nxt = len(cspec["views"]) + 1
-    by = {o["o"]: o for o in cspec["objs"]}
-    for _vi, l in cspec["members"]:
-        i = by[l]["id"]
-        if i is None:
-            by[l] = dict(by[l], id=nxt)
-            nxt += 1
-        elif i >= nxt:
-            nxt = i + 1
-    return nxt
+    """State of the xmi:id generator before the save, from the scenario: sofas take 1..n (or what id_plan says when views are
+    created later / with ids of their own), add(keep_id) reserves (ba2e314)."""
+    return id_plan(cspec)[2]
+
+
+def ids_clash(cspec):
+    """two structures (sofas included) under one explicit xmi:id, or two sofas with one sofaNum: not a CAS of the property"""
+    sid, num, _nxt = id_plan(cspec)
+    ids = [o["id"] for o in cspec["objs"] if o["id"] is not None] + sid
+    return len(set(ids)) != len(ids) or len(set(num)) != len(num)
 
 
 def schema2(cassis, tspec, da_feats):
@@ -217,9 +262,90 @@ def build_ts(cassis, tspec, da_feats):
     return ts
 
 
+def build_cas_in_time(cassis, ts, cspec):
+    """scen.build_cas for a CAS whose views are not all created before the first add: view i (i >= 1) is created after
+    `after` of the adds (so its sofa takes an xmi:id above the ids in use by then, while its sofaNum is i + 1), or with an
+    xmi:id / sofaNum of its own through the documented keywords of Cas.create_view.  The order of the views, of the adds and
+    everything else is as in scen.build_cas; a `sofa` slot waits until its view exists."""
+    cas = cassis.Cas(typesystem=ts)
+    specs = cspec["views"]
+    views, vname, waiting = [], {}, []
+    objs = {}
+    for o in cspec["objs"]:
+        kw = {}
+        if o.get("id") is not None:
+            kw["xmiID"] = o["id"]
+        objs[o["o"]] = ts.get_type(o["type"])(**kw)
+
+    def make_views(pos, upto=-1):
+        while len(views) < len(specs) and (not views or specs[len(views)].get("after", 0) <= pos or len(views) <= upto):
+            v = specs[len(views)]
+            if not views:
+                view = cas
+            else:
+                kw = {}
+                if v.get("sid") is not None:
+                    kw["xmiID"] = v["sid"]
+                if v.get("num") is not None:
+                    kw["sofaNum"] = v["num"]
+                view = cas.create_view(v["name"], **kw)
+            if v.get("text0") is not None and v.get("text") is not None:
+                view.sofa_string = "".join(chr(c) for c in v["text0"])
+            if v.get("text") is not None:
+                view.sofa_string = "".join(chr(c) for c in v["text"])
+            if v.get("mime") is not None:
+                view.sofa_mime = v["mime"]
+            views.append(view)
+            vname[v["name"]] = view
+            for x, k, name in list(waiting):
+                if name == v["name"]:
+                    setattr(x, k, view.get_sofa())
+                    waiting.remove((x, k, name))
+
+    def conv(v):
+        if v is None:
+            return None
+        if "i" in v:
+            return v["i"]
+        if "f" in v:
+            return scen.unfl(v["f"])
+        if "b" in v:
+            return v["b"]
+        if "s" in v:
+            return v["s"]
+        if "ref" in v:
+            return objs[v["ref"]]
+        if "list" in v:
+            return [conv(e) for e in v["list"]]
+        raise ValueError(v)
+
+    make_views(0)
+    for o in cspec["objs"]:
+        for k, v in o["slots"].items():
+            if v is not None and "sofa" in v:
+                if v["sofa"] in vname:
+                    setattr(objs[o["o"]], k, vname[v["sofa"]].get_sofa())
+                else:
+                    waiting.append((objs[o["o"]], k, v["sofa"]))
+            else:
+                setattr(objs[o["o"]], k, conv(v))
+    for p, (vi, lab) in enumerate(cspec["members"]):
+        make_views(p, vi)
+        views[vi].add(objs[lab], keep_id=True)
+    make_views(len(cspec["members"]), len(specs))
+    return cas, views, objs
+
+
+def in_time(cspec):
+    return any(v.get("after") or v.get("sid") is not None or v.get("num") is not None for v in cspec["views"])
+
+
 def build(cassis, sc):
     ts = build_ts(cassis, sc["tspec"], sc["da_feats"])
-    cas, views, objs = scen.build_cas(cassis, ts, sc["cspec"])
+    if in_time(sc["cspec"]):
+        cas, views, objs = build_cas_in_time(cassis, ts, sc["cspec"])
+    else:
+        cas, views, objs = scen.build_cas(cassis, ts, sc["cspec"])
     for i, v in enumerate(sc["cspec"]["views"]):
         if v.get("uri") is not None:
             views[i].sofa_uri = v["uri"]
@@ -299,13 +425,79 @@ def keep_ids_apart(cspec):
     id-less sofa byte arrays and to the id-less unindexed structure)."""
     objs = cspec["objs"]
     mem = {l for _v, l in cspec["members"]}
-    used = {o["id"] for o in objs if o["id"] is not None} | set(range(1, len(cspec["views"]) + 1))
-    nxt = next_id(cspec)
+    sids, _nums, nxt = id_plan(cspec)
+    used = {o["id"] for o in objs if o["id"] is not None} | set(sids)
     for o in objs:
         if o["o"] not in mem and o["id"] is not None and nxt <= o["id"] < nxt + 8:
             used.discard(o["id"])
             o["id"] = max(used | {nxt + 8}) + 9
             used.add(o["id"])
+
+
+def vary_sofa_ids(r, cspec):
+    """A CAS is what a history of API calls leaves behind, and nothing makes the views come first: a view created after
+    structures were added has a sofa whose xmi:id (next free id) differs from its sofaNum (number of the view), and
+    Cas.create_view documents xmiID= / sofaNum= for a sofa with identifiers of its own.  scen.build_cas creates all views
+    before the first add, so every generated sofa had xmi:id = sofaNum = position.  Here, for about half of the multi-view
+    scenarios, each further view is created late (after >= 1 adds), or with a given xmi:id (above the ids in use, or the
+    smallest free one) and now and then a given sofaNum, or as before.  Drawn from a stream of its own; explicit ids of
+    structures that would coincide with an id a late sofa takes are moved (ASSUMPTIONS: ids distinct).  Returns the knobs."""
+    views, members, objs = cspec["views"], cspec["members"], cspec["objs"]
+    n = len(views)
+    if n < 2 or r.random() >= 0.6:
+        return []
+    first = [next((p for p, (vi, _l) in enumerate(members) if vi == i), len(members)) for i in range(n)]
+    hi = list(first)
+    for i in range(n - 2, -1, -1):
+        hi[i] = min(hi[i], hi[i + 1])
+    used = {o["id"] for o in objs if o["id"] is not None} | set(range(1, n + 1))
+    kinds = [r.choice(["late", "late", "late", "given", "given", "plain"]) for _ in range(n - 1)]
+    if all(k == "plain" for k in kinds):
+        kinds[r.randrange(n - 1)] = r.choice(["late", "given"])
+    knobs, prev, numc = [], 0, 2
+    for i in range(1, n):
+        kind, v = kinds[i - 1], views[i]
+        if kind == "late" and hi[i] < max(prev, 1):
+            kind = "given"          # its first member is the first add of all: it cannot come late
+        v["after"] = prev
+        if kind == "late":
+            v["after"] = prev = r.randint(max(prev, 1), hi[i])
+        elif kind == "given":
+            free = min(x for x in range(n + 1, max(used) + 2) if x not in used)
+            v["sid"] = r.choice([max(used) + r.randint(1, 3), max(used) + 1, free])
+            used.add(v["sid"])
+            if r.random() < 0.4:
+                v["num"] = numc + r.randint(1, 3)
+                numc = v["num"]
+                knobs.append("num_given")
+        numc += 1
+        knobs.append(kind)
+    # ids are distinct: a structure whose explicit id a late sofa takes (or a sofa given the id another sofa takes) moves away
+    for _ in range(40):
+        sids, _nums, _nxt = id_plan(cspec)
+        top = max(used | set(sids))
+        dup = [i for i in range(1, n) if views[i].get("sid") is not None and sids.count(sids[i]) > 1]
+        if dup:
+            views[dup[0]]["sid"] = top + 1
+            used.add(top + 1)
+            continue
+        hit = [o for o in objs if o["id"] is not None and o["id"] in sids]
+        if not hit:
+            break
+        used.discard(hit[0]["id"])
+        hit[0]["id"] = top + r.randint(1, 3)
+        used.add(hit[0]["id"])
+    else:  # pragma: no cover -- did not settle: leave the scenario as scen made it
+        for v in views:
+            v.pop("after", None), v.pop("sid", None), v.pop("num", None)
+        return []
+    keep_ids_apart(cspec)
+    if ids_clash(cspec):  # pragma: no cover
+        raise AssertionError("vary_sofa_ids left two structures under one id")
+    sids, nums, _nxt = id_plan(cspec)
+    if sids != nums:
+        knobs.append("id_differs_from_num")
+    return knobs
 
 
 def list_element_types(r, tspec):
@@ -325,10 +517,10 @@ def generate(rng, tier):
     n = {"quick": 3 * len(COMBOS), "thorough": 12 * len(COMBOS), "search": 20 * len(COMBOS)}[tier]
     for k in range(n):
         sub = rng.randrange(1 << 30)
-        yield make_scenario(sub, k, big=(tier != "quick" and k % 7 == 0))
+        yield make_scenario(sub, k, big=(tier != "quick" and k % 7 == 0), sofa_ids=True)
 
 
-def make_scenario(sub, k, big=False):
+def make_scenario(sub, k, big=False, sofa_ids=False):
     import cassis  # only for the built-in table of scen.schema_of; the tree under test is already imported by the engine
     r = random.Random(sub)
     mode, load, pretty, asc, sink = COMBOS[k % len(COMBOS)]
@@ -342,10 +534,11 @@ def make_scenario(sub, k, big=False):
     cspec = scen.gen_cspec(r, cassis, tspec, n_objs=(1, 14 if big else 7), all_ids=True)
     da_feats = _extend(r, cassis, tspec, cspec)
     knobs = share_sofa_arrays(random.Random(sub ^ 0x50FA), cassis, tspec, da_feats, cspec)
+    sofa_knobs = vary_sofa_ids(random.Random(sub ^ 0x50F1D), cspec) if sofa_ids else []
     variant = dict(VARIANTS[(k // len(COMBOS) + k) % len(VARIANTS)], seed=r.randrange(1 << 30))
     return {"tspec": tspec, "da_feats": da_feats, "cspec": cspec,
             "cfg": {"mode": mode, "load": load, "pretty": pretty, "ascii": asc, "sink": sink, "variant": variant,
-                    "coq_variant": k % 3 == 0 or bool(knobs), "array_knobs": knobs}}
+                    "coq_variant": k % 3 == 0 or bool(knobs), "array_knobs": knobs, "sofa_knobs": sofa_knobs}}
 
 
 # ------------------------------------------------------------------------------------------------ implementation driver
@@ -619,11 +812,12 @@ def g_cas(sc):
     for vi, l in cspec["members"]:
         per_view[vi].append(l)
     views = []
+    sids, nums, nxt = id_plan(cspec)
     for i, v in enumerate(cspec["views"]):
-        sofa = (f"mkSofa {gz(i + 1)} {gz(i + 1)} {gstr(v['name'])} {scen.g_text(v.get('text'))} {gopt(v.get('mime'), gstr)} "
+        sofa = (f"mkSofa {gz(sids[i])} {gz(nums[i])} {gstr(v['name'])} {scen.g_text(v.get('text'))} {gopt(v.get('mime'), gstr)} "
                 f"{gopt(v.get('uri'), gstr)} {gopt(v.get('array'), gn)}")
         views.append(f"mkView ({sofa}) {glist([gn(l) for l in per_view[i]])}")
-    return f"mkCas {glist(views)} {scen.g_heap(cspec)} {gz(next_id(cspec))}"
+    return f"mkCas {glist(views)} {scen.g_heap(cspec)} {gz(nxt)}"
 
 
 def render(sc, obs):
@@ -684,7 +878,7 @@ def shrink_candidates(sc):
         c = copy.deepcopy(sc)
         c["cspec"]["objs"] = [x for x in c["cspec"]["objs"] if x["o"] != o["o"]]
         c["cspec"]["members"] = [m for m in c["cspec"]["members"] if m[1] != o["o"]]
-        if c["cspec"]["objs"]:
+        if c["cspec"]["objs"] and not ids_clash(c["cspec"]):   # (fewer adds: a late sofa may now take the id of a structure)
             yield c
     for o in cs["objs"]:
         for k in list(o["slots"]):
@@ -695,6 +889,13 @@ def shrink_candidates(sc):
                 if x["o"] == o["o"]:
                     del x["slots"][k]
             yield c
+    for i, v in enumerate(cs["views"]):
+        for k in ("num", "sid", "after"):
+            if v.get(k):
+                c = copy.deepcopy(sc)
+                del c["cspec"]["views"][i][k]
+                if not ids_clash(c["cspec"]):
+                    yield c
     for i, v in enumerate(cs["views"]):
         if v.get("array") is not None or v.get("uri") is not None:
             c = copy.deepcopy(sc)
@@ -712,7 +913,8 @@ def distribution(scenarios, observations):
     feats = {"byte_array_sofa": 0, "uri_sofa": 0, "docann_extended": 0, "docann_instance": 0, "idless": 0, "multi_view": 0,
              "astral_text": 0, "fslist_elem_declared": 0, "fslist_elem_declared_and_set": 0, "fsarray_elem_declared": 0,
              "sofa_array_shared": 0, "sofa_array_indexed": 0, "sofa_array_referenced": 0, "sofa_array_fsarray_element": 0,
-             "sofa_array_combined": 0, "sofa_array_special_idless": 0, "sofa_array_special_with_id": 0}
+             "sofa_array_combined": 0, "sofa_array_special_idless": 0, "sofa_array_special_with_id": 0,
+             "view_created_late": 0, "sofa_id_given": 0, "sofa_num_given": 0, "sofa_id_differs_from_num": 0}
     for sc in scenarios:
         cfg = sc["cfg"]
         modes[cfg["mode"]] = modes.get(cfg["mode"], 0) + 1
@@ -742,6 +944,11 @@ def distribution(scenarios, observations):
         feats["sofa_array_combined"] += len({"shared", "indexed", "referenced", "element"} & set(kn)) >= 2
         feats["sofa_array_special_idless"] += "idless" in kn
         feats["sofa_array_special_with_id"] += "with_id" in kn
+        sk = cfg.get("sofa_knobs") or []
+        feats["view_created_late"] += "late" in sk
+        feats["sofa_id_given"] += "given" in sk
+        feats["sofa_num_given"] += "num_given" in sk
+        feats["sofa_id_differs_from_num"] += "id_differs_from_num" in sk
     n_loads = sum(len(o["loads"]) for o in observations if o)
     return {"cases": len(scenarios), "modes": modes, "load_arguments": loads, "sink_flags": sinks, "variants": variants,
             "features": feats, "loads_executed": n_loads,
